@@ -14,16 +14,15 @@ Nothing is executed.
 from __future__ import annotations
 
 import ast
-from dataclasses import dataclass, field
+from dataclasses import dataclass
 from typing import Callable, Iterable
 
 from core.cfg import exit_kinds
-from core.guards import TRUE, Formula, conds_formula, f_and, f_not, to_formula
 from core.inline_stmt import Inliner
-from core.loader import ClassInfo, FuncInfo, Repo, ancestors, header, norm, own_nodes, parent
+from core.loader import ClassInfo, FuncInfo, Repo, ancestors, parent
 from core.types import Types
 
-from .common import conds, copy_prop, stmt_of, types_of
+from .common import conds, stmt_of, types_of
 
 TRANSPARENT = {"list", "tuple", "set", "frozenset", "sorted", "reversed", "iter"}
 ADDERS = {"append", "add", "appendleft"}
